@@ -160,6 +160,42 @@ func init() {
 		Outside:   "more than k frames per stream; payload lengths between 4 and maxMessageSize-2; server call-site payload sizes",
 	})
 	reg(&Property{
+		ID: "C10",
+		Instances: func(tier string) []Instance {
+			out := []Instance{
+				inst("internal/receiver", "HDryRun", "m", 1),
+				inst("internal/sender", "HSenderDry", "k", 2),
+			}
+			if tier == "thorough" {
+				out = append(out, inst("internal/receiver", "HDryRun", "m", 2), inst("internal/sender", "HSenderDry", "k", 3))
+			}
+			return out
+		},
+		MustReach: []string{"done", "ok"},
+		Redirects: sym.VfsRedirects(),
+		Bounds:    "one list entry of any type (7 valid types and invalid type bits), arbitrary permissions, mtime, ids, rdev, 1-byte link target; any prior object at that path (8 kinds, arbitrary metadata, m content bytes); one extraneous file; every other option bit symbolic (incl. --delete, -c, -I, preserve flags); delete pass + generator + receiver + directory touch-up; sender: k requests",
+		Outside:   "trees with more than one listed entry; the directory being itself absent",
+	})
+	reg(&Property{
+		ID: "C12",
+		Instances: func(tier string) []Instance {
+			out := []Instance{
+				inst("internal/receiver", "HUpdateRule", "m", 0),
+				inst("internal/receiver", "HUpdateRule", "m", 2),
+				inst("internal/receiver", "HIdempotent", "n", 0),
+				inst("internal/receiver", "HIdempotent", "n", 2),
+			}
+			if tier == "thorough" {
+				out = append(out, inst("internal/receiver", "HUpdateRule", "m", 4), inst("internal/receiver", "HIdempotent", "n", 5))
+			}
+			return out
+		},
+		MustReach: []string{"skip", "request", "noop"},
+		Redirects: sym.VfsRedirects(),
+		Bounds:    "destination: absent | regular (m bytes, symbolic content, mtime seconds over int32, nanoseconds 0..999999999) | empty directory | symlink; list entry: 64-bit length, int32 mtime, 16-byte checksum, all symbolic; options -c -I -t -n -p symbolic; idempotence as one inductive step from the post-state of a successful transfer",
+		Outside:   "destination mtimes outside the int32 range; time.Truncate(time.Second) is modelled as clearing the nanosecond field",
+	})
+	reg(&Property{
 		ID: "C15",
 		Instances: func(tier string) []Instance {
 			return []Instance{inst("internal/rsyncwire", "HInt64RoundTrip")}
